@@ -1,6 +1,7 @@
 /-
 Model of `generatePropertyPatches` / `generatePropertyPatchesAux`
-(`guidedremediation/internal/manifest/maven/pomxml.go`, C13), as of fix 3277e05b.
+(`guidedremediation/internal/manifest/maven/pomxml.go`, C13), as of fixes 3277e05b (bounds checks) and
+d4dd80ce (`setPropertyPatch`: a name never gets two different values).
 
 Go strings are byte strings; the model works on `List Char` (the generator stays in ASCII, where
 bytes and runes coincide).  Every Go slice expression `s[a:b]` is the checked `slice`, so an
@@ -30,6 +31,16 @@ inductive Out
   | panic
 deriving Repr, DecidableEq
 
+/-- the resulting Go map: last assignment wins -/
+def lookupLast (ps : List (Str × Str)) (k : Str) : Option Str :=
+  (ps.reverse.find? (·.1 = k)).map (·.2)
+
+/-- `setPropertyPatch`: `none` = false (the name already has another value) -/
+def setPatch (acc : List (Str × Str)) (name v : Str) : Option (List (Str × Str)) :=
+  match lookupLast acc name with
+  | some prev => if prev ≠ v then none else some (acc ++ [(name, v)])
+  | none => some (acc ++ [(name, v)])
+
 /-- `generatePropertyPatchesAux`; `fuel` bounds the recursion depth (each call drops at least the first
 placeholder of `s1`), `acc` is the `patches` map so far -/
 def aux : Nat → Str → Str → List (Str × Str) → Out
@@ -58,7 +69,8 @@ def aux : Nat → Str → Str → List (Str × Str) → Out
               | some tail =>
                 if rest = tail then
                   match slice s1 (start + 2) e, slice s2 start (s2.length - rest.length) with
-                  | some name, some v => .ok (acc ++ [(name, v)])
+                  | some name, some v =>
+                    (match setPatch acc name v with | some acc' => .ok acc' | none => .no)
                   | _, _ => .panic
                 else .no
             | some next =>
@@ -68,7 +80,8 @@ def aux : Nat → Str → Str → List (Str × Str) → Out
                 | some m =>
                   if m > 0 then
                     match slice s1 (start + 2) e, slice s2 start (start + m), slice s2 (start + m) s2.length with
-                    | some name, some v, some s2rest => aux fuel rest s2rest (acc ++ [(name, v)])
+                    | some name, some v, some s2rest =>
+                      (match setPatch acc name v with | some acc' => aux fuel rest s2rest acc' | none => .no)
                     | _, _, _ => .panic
                   else .no
                 | none => .no
@@ -77,10 +90,6 @@ def aux : Nat → Str → Str → List (Str × Str) → Out
 
 /-- `generatePropertyPatches(s1, s2)` -/
 def gen (s1 s2 : Str) : Out := aux (s1.length + 1) s1 s2 []
-
-/-- the resulting Go map: last assignment wins -/
-def lookupLast (ps : List (Str × Str)) (k : Str) : Option Str :=
-  (ps.reverse.find? (·.1 = k)).map (·.2)
 
 def asMap (ps : List (Str × Str)) : List (Str × Str) :=
   ps.foldl (fun acc p => (acc.filter (·.1 ≠ p.1)) ++ [p]) []
